@@ -157,7 +157,7 @@ class MethodView:
     def appended_copies(self, recv_pred):
         """appends of `count` copies of one value to a vector satisfying recv_pred, whatever the idiom:
              for _ in 0..count { v.push(x) }        v.extend(repeat_with(|| x).take(count))       v.extend(repeat(x).take(count))
-             v.resize(v.len() + count, x) is NOT recognised (fails closed).
+             v.resize(n, x): recognised with the side condition len(v) <= n left to the caller ("grows_only_if").
         Returns [{"value", "count", "eff", "bb"}] for the recognised ones and a second list with every other mutator of that vector."""
         from . import circ
         out, other = [], []
@@ -184,6 +184,11 @@ class MethodView:
                     if val is not None:
                         out.append({"value": val, "count": cnt, "eff": e, "bb": e.bb})
                         continue
+            if nm == "resize" and len(e.args) == 3 and not circ.loops_of(e):
+                # v.resize(n, x) appends n - len(v) copies of x PROVIDED len(v) <= n (otherwise it truncates): recognised as an append
+                # whose entry carries the bound the caller must find established ("grows_only_if": n)
+                out.append({"value": P.norm(e.args[2]), "count": ("bin", "Sub", P.norm(e.args[1]), ("len", P.norm(e.args[0]))), "eff": e, "bb": e.bb, "grows_only_if": P.norm(e.args[1])})
+                continue
             if nm in T.MUTATORS:
                 other.append(e)
         return out, other
@@ -209,11 +214,11 @@ class MethodView:
             nm = P.call_name(inner) or ""
             if fw == "some" and nm.rsplit("::", 1)[-1] in ("find", "position") and len(inner[4]) == 2 and isinstance(inner[4][1], tuple) and inner[4][1][0] == "closure":
                 coll = P.norm(inner[4][0])
-                out.append((g, coll, P.norm(self.fr.closure_ret(inner[4][1], [("elem", coll)], site_hint=inner[1]))))
+                out.append((g, coll, self._predicate(inner[4][1], coll, inner[1])))
                 continue
             if fw is True and nm.endswith("::any") and len(inner[4]) == 2 and isinstance(inner[4][1], tuple) and inner[4][1][0] == "closure":
                 coll = P.norm(inner[4][0])
-                out.append((g, coll, P.norm(self.fr.closure_ret(inner[4][1], [("elem", coll)], site_hint=inner[1]))))
+                out.append((g, coll, self._predicate(inner[4][1], coll, inner[1])))
                 continue
             if fw is True:
                 loops = [x[1] for x in self.fr.ctrl_of_block(g["bb"]) if x[0] == "loop" and tuple(x[2]) == ("1",)]
@@ -222,6 +227,18 @@ class MethodView:
                         out.append((g, P.norm(coll), P.norm(c)))
                         break
         return out
+
+    def _predicate(self, clos, coll, site):
+        """the predicate closure applied to ("elem", coll): its value, or ("or", (d1, d2, ..)) when it is a short-circuit disjunction
+        (`|x| a(x) != 0 || b(x) != z`), whose first operands live in the closure's control flow rather than in its value"""
+        el = ("elem", coll)
+        # find/position over enumerate() hand the closure a (index, element) pair
+        ch = self.fr.closure_frame(clos, [el], site)
+        if ch is not None:
+            ds = guards.bool_disjuncts(ch)
+            if ds is not None and len(ds) > 1:
+                return ("or", tuple(P.norm(d) for d in ds))
+        return P.norm(self.fr.closure_ret(clos, [el], site_hint=site))
 
     def self_field_writes(self):
         """[(bb, [field names])] of every direct assignment through `self` (own or an expanded helper's)"""
